@@ -11,7 +11,7 @@ from gen import grammar
 
 LEVEL_NOTE = [
     "C01_full (every program of the grammar of DESIGN §4.1 gets only Notices) is NOT proved: it needs every rule ported. Proved fragments (C01.verdict_ok, linelen_silent, token_col_le, and by import C13.accept, C11.int_valid): the verdict/exit plumbing, the 42 header, integer constants, the 80-column limit",
-    "for every rule table (C01.always_silent / spacing_silent): CheckTernary, CheckLineLen and CheckSpacing (complete ports, Model/Checks.lean and Model/Spacing.lean) add nothing to a file whose tokens are cleanly spaced / short / free of `?`; tie: `always` stream",
+    "for every rule table (C01.always_silent / spacing_silent / many_instr_silent): CheckTernary, CheckLineLen, CheckSpacing and CheckManyInstructions (complete ports, Model/Checks.lean and Model/Spacing.lean) add nothing to a file whose tokens are cleanly spaced / short / free of `?` and whose statements start at column 1; tie: `always` stream",
     "decision per program: the acceptance oracle runs the real pipeline (and the real CLI for a sample) on generated conforming programs; the generator harness/gen/grammar.py follows §4.1 (gen/grammar.py::REJECTED_CONSTRUCTS lists the constructs the tool refuses: 7 are corrections of the grammar, 6 are genuine defects recorded as known findings and replayed on every run; all are excluded from generation)",
 ]
 PARTIAL = [
